@@ -27,7 +27,7 @@ type gsPup struct {
 }
 
 type gsOp struct {
-	Kind   string // attach detach sub unsub graft prune join leave score direct undirect wait publish closein
+	Kind   string // attach detach sub unsub graft prune join leave score direct undirect wait publish closein closeout_detach
 	Pup    *gsPup
 	Topic  string
 	Arg    uint64
@@ -229,6 +229,8 @@ func (w *gsWorld) Step() *gsOp {
 	case 15:
 		if c.Chance(0.3) {
 			op.Kind = "closein"
+		} else if c.Chance(0.4) {
+			op.Kind = "closeout_detach"
 		} else {
 			op.Kind = "wait"
 		}
@@ -308,6 +310,15 @@ func (w *gsWorld) Step() *gsOp {
 		gp.direct = false
 	case "publish":
 		w.handle(tn).Publish(context.Background(), []byte(fmt.Sprintf("m-%d", len(w.hist))))
+	case "closeout_detach":
+		if !gp.attached {
+			op.Kind = "noop"
+		} else {
+			// the puppet leaves in two steps: its own stream first, the connection (and with it the node's stream) a moment later
+			gp.p.CloseOut(w.nd.ID(), true)
+			vSettle(20 * time.Millisecond)
+			w.detach(gp)
+		}
 	case "closein":
 		if !gp.attached {
 			op.Kind = "noop"
